@@ -40,7 +40,7 @@ meta = {
         "demo_exit_with_change": summary.get("demo_exit_with_change"),
         "demo_exit_without_change": summary.get("demo_exit_without_change"),
     },
-    "ran": ["git -C /repo apply patch.diff", "python3 tools/baseline.py /repo", "PYTHONPATH=/repo /venv/bin/python demo.py"] + ["./check %s --tier quick" % c for c in checks] + ["git -C /repo checkout -- ."],
+    "ran": ["git -C /repo worktree add --detach <scratch> HEAD", "git -C <scratch> apply patch.diff", "python3 tools/baseline.py <scratch>", "PYTHONPATH=<scratch> /venv/bin/python demo.py  (must fail)"] + ["VERIF_REPO=<scratch> ./check %s --tier quick" % c for c in checks] + ["git -C <scratch> checkout -- .", "PYTHONPATH=<scratch> /venv/bin/python demo.py  (must pass)"],
     "detected_by": {c: v for c, v in summary.get("checks", {}).items()},
 }
 json.dump(meta, open(os.path.join(d, "meta.json"), "w"), indent=1)
